@@ -14,6 +14,7 @@ path of `node.fail` (`nil` for a nil pointer).  This ties the label trie of the 
 only through query results.
 -/
 import Golib.Model.C05Trie
+import Golib.Model.C05Ptr
 
 namespace Golib.C05
 open Golib.Proto
@@ -47,6 +48,29 @@ def dumpLoop (t : Trie) : Nat → List Label → List String → Option (List St
 def dumpLine (t : Trie) : Option String :=
   (dumpLoop t (nodeBound t.pats + 1) [[]] []).map fun es => "|".intercalate es
 
+/-- Pre-order walk of the POINTER model (children in array order): `(id, path)` of every node. -/
+def pPaths (pt : PTrie) : Nat → List (Nat × Label) → List (Nat × Label) → Option (List (Nat × Label))
+  | _, [], acc => some acc.reverse
+  | 0, _ :: _, _ => none
+  | fuel + 1, (id, path) :: stack, acc =>
+    match pt.nodes[id]? with
+    | none => none
+    | some nd => pPaths pt fuel (nd.children.map (fun rc => (rc.2, path ++ [rc.1])) ++ stack) ((id, path) :: acc)
+
+/-- The `dump` line computed from the pointer-level model (`Golib/Model/C05Ptr.lean`): the
+node store is walked as the harness walks the real heap; a fail pointer is printed as the path
+of the node it points to. -/
+def pDumpLine (pt : PTrie) : Option String :=
+  (pPaths pt (pt.nodes.length + 1) [(0, [])] []).bind fun ps =>
+    (ps.mapM fun (ip : Nat × Label) =>
+      (pt.nodes[ip.1]?).map fun nd =>
+        showPath ip.2 ++ ";" ++ toString nd.size ++ ";" ++ (if nd.isEnd then "1" else "0") ++ ";" ++
+          (match nd.fail with
+           | none => "nil"
+           | some f => match ps.lookup f with
+             | some q => showPath q
+             | none => "?")).map fun es => "|".intercalate es
+
 /-- Driver state of a case: the trie, whether patterns were inserted since the last
 `BuildFailureLinks` (`dirty`: queries are then outside the property; a panic of such a query
 is recovered by the caller and the trie is used on), and the last string result (what the
@@ -55,6 +79,9 @@ structure DState where
   t : Trie
   dirty : Bool
   last : List Nat
+  /-- the pointer-level model of the same trie (`c05_pointer_refines_label`: it represents `t`
+  after every `insert` / `build`); `dump` is printed from it -/
+  pt : PTrie
 deriving Repr
 
 /-- A byte-string argument: hex, `-` = empty, `^` = the last result. -/
@@ -67,7 +94,7 @@ and, for a non-empty list answer, its last element (the new `last`). -/
 def runOp (s : DState) (ts : List String) : Option (Option (String × Option (List Nat))) :=
   let lastOf (xs : List (List Nat)) : Option (List Nat) := xs.getLast?
   match ts with
-  | ["dump"] => some ((dumpLine s.t).map fun o => (o, none))
+  | ["dump"] => some ((pDumpLine s.pt).map fun o => (o, none))
   | ["sibling", pat, text] =>
     -- an independent second trie (a copy of the zero value), built from one pattern
     match argBytes s pat, argBytes s text with
@@ -92,10 +119,14 @@ current trie (its failure table is left as it is: new nodes have `nil`), `build`
 `none` = not such an op, `some none` = panic. -/
 def mutOp (s : DState) (ts : List String) : Option (Option DState) :=
   match ts with
-  | ["build"] => some (s.t.rebuild.map fun t' => { s with t := t', dirty := false })
+  | ["build"] =>
+    some (match s.t.rebuild, s.pt.build with
+      | some t', some pt' => some { s with t := t', pt := pt', dirty := false }
+      | _, _ => none)
   | ["insert", arg] =>
     match argBytes s arg with
-    | some bs => some (some { s with t := s.t.insert (decodeAll bs), dirty := true })
+    | some bs => some ((s.pt.insert (decodeAll bs)).map fun pt' =>
+        { s with t := s.t.insert (decodeAll bs), pt := pt', dirty := true })
     | none => none
   | _ => none
 
@@ -129,10 +160,14 @@ build (the trie is dirty from the start). -/
 def initState (hdr : List String) : Option (Option DState) :=
   match hdr with
   | "trie" :: rest =>
-    (parsePatterns rest).map fun pats => (Trie.ofPatterns pats).map fun t => ⟨t, false, []⟩
+    (parsePatterns rest).map fun pats =>
+      match Trie.ofPatterns pats, PTrie.ofPatterns pats with
+      | some t, some pt => some ⟨t, false, [], pt⟩
+      | _, _ => none
   | "raw" :: rest =>
     (parsePatterns rest).map fun pats =>
-      some ⟨pats.foldl (fun t p => t.insert (decodeAll p)) Trie.empty, true, []⟩
+      (PTrie.empty.insertAll pats).map fun pt =>
+        ⟨pats.foldl (fun t p => t.insert (decodeAll p)) Trie.empty, true, [], pt⟩
   | _ => none
 
 def runCaseWith (query : DState → List String → Option (Option (String × Option (List Nat))))
